@@ -104,10 +104,75 @@ func (p *pwPath) addrKey(a ssa.Value) string {
 // objKey: the key of an object; a local cell whose address does not escape
 // (no callee can write to it) is marked with a leading L.
 func objKey(v ssa.Value) string {
-	if a, ok := v.(*ssa.Alloc); ok && !a.Heap {
+	if a, ok := v.(*ssa.Alloc); ok && (!a.Heap || !allocEscapes(a)) {
 		return fmt.Sprintf("L%p", a)
 	}
 	return fmt.Sprintf("%p", v)
+}
+
+var allocEscapeMemo sync.Map // *ssa.Alloc -> bool
+
+// allocEscapes: the address of the allocation can reach code other than the loads and stores of its
+// own function and of the module functions it is handed to as a plain argument (which in turn only
+// load and store through it): a small accumulator struct `out := &loopOutput{}` with a method
+// `out.add(x)` does not escape, so no other call can change it.
+func allocEscapes(a *ssa.Alloc) bool {
+	if v, ok := allocEscapeMemo.Load(a); ok {
+		return v.(bool)
+	}
+	res := addrEscapes(a, 0, map[ssa.Value]bool{})
+	allocEscapeMemo.Store(a, res)
+	return res
+}
+
+func addrEscapes(v ssa.Value, depth int, seen map[ssa.Value]bool) bool {
+	if depth > 3 || seen[v] {
+		return depth > 3
+	}
+	seen[v] = true
+	refs := v.Referrers()
+	if refs == nil {
+		return true
+	}
+	for _, r := range *refs {
+		switch x := r.(type) {
+		case *ssa.DebugRef:
+		case *ssa.UnOp:
+			if x.Op != token.MUL {
+				return true
+			}
+			// a load through the address: of a pointer-free location that is fine; a loaded pointer to
+			// another object is that object's business
+		case *ssa.Store:
+			if x.Val == v {
+				return true // the address itself is stored somewhere
+			}
+		case *ssa.FieldAddr:
+			if addrEscapes(x, depth, seen) {
+				return true
+			}
+		case *ssa.IndexAddr:
+			if addrEscapes(x, depth, seen) {
+				return true
+			}
+		case *ssa.Call:
+			callee := x.Call.StaticCallee()
+			if callee == nil || !inModule(callee) || len(callee.Blocks) == 0 || len(callee.Params) != len(x.Call.Args) {
+				return true
+			}
+			for j, arg := range x.Call.Args {
+				if arg == v && addrEscapes(callee.Params[j], depth+1, seen) {
+					return true
+				}
+			}
+			if x.Call.Value == v {
+				return true
+			}
+		default:
+			return true
+		}
+	}
+	return false
 }
 
 // sliceElems: v is a slice of a local array filled with constant-index stores
@@ -1096,6 +1161,17 @@ func (pw *pathWalker) run(s *pwState) []*pwState {
 					for k := range s.p.mem {
 						if strings.Contains(k, ".") && !strings.HasPrefix(k, "L") {
 							delete(s.p.mem, k)
+						}
+					}
+					// ... and the local objects whose address this call is handed
+					for _, a := range x.Call.Args {
+						if al, ok := s.p.resolve(a).(*ssa.Alloc); ok {
+							pre := objKey(al)
+							for k := range s.p.mem {
+								if strings.HasPrefix(k, pre) {
+									delete(s.p.mem, k)
+								}
+							}
 						}
 					}
 				}
